@@ -59,6 +59,36 @@ func dispatch(mode string, args []string) bool {
 			os.Exit(2)
 		}
 		return true
+	case "record":
+		// record <request file> <response file>: RecordArtifacts in the current directory
+		if len(args) != 2 {
+			return false
+		}
+		var o hx.RecOpts
+		data, err := os.ReadFile(args[0])
+		if err != nil || json.Unmarshal(data, &o) != nil {
+			fmt.Fprintln(os.Stderr, "worker: bad request")
+			os.Exit(2)
+		}
+		resp := map[string]any{}
+		func() {
+			defer func() {
+				if p := recover(); p != nil {
+					resp["panic"] = fmt.Sprint(p)
+				}
+			}()
+			m, err := intoto.RecordArtifacts(o.Paths, o.Algs, o.Excludes, o.Strips, o.Normalize, o.FollowDir)
+			if err != nil {
+				resp["err"] = err.Error()
+			} else {
+				resp["artifacts"] = m
+			}
+		}()
+		out, _ := json.Marshal(resp)
+		if err := os.WriteFile(args[1], out, 0o644); err != nil {
+			os.Exit(2)
+		}
+		return true
 	case "run":
 		if len(args) != 2 {
 			return false
